@@ -37,6 +37,8 @@ import RattrModel.Spec.ExitCode
 import RattrModel.Generated.C15
 import RattrModel.DiagScope
 import RattrProofs.Lemmas.C15Scope
+import RattrModel.SimplResolve
+import RattrProofs.Lemmas.C15Resolve
 
 namespace Rattr.C15
 open Rattr Rattr.Diag
@@ -634,5 +636,165 @@ example :
   decide
 
 end Scoped
+
+/-! ## Round 4: the two loops that follow imports
+
+`resolve_import` (result simplification) and one queue element of `parse_and_analyse_imports`
+(RattrModel/SimplResolve.lean). -/
+
+section Resolve
+open Rattr.DiagScope Rattr.SimplResolve Rattr.C15Resolve
+
+/-- Tie A: `state.current_file` changes in `enter_file` only, `enter_file` is used as a `with` item
+only, and the `with enter_file(..)` blocks of rattr/**.py are exactly the pinned ones. -/
+theorem C15_current_file_changes_pinned :
+    Generated.C15.enterFileSites = SimplResolve.enterFileSites
+    ∧ Generated.C15.enterFileOtherUses = []
+    ∧ Generated.C15.currentFileWriters = SimplResolve.currentFileWriters := by
+  decide
+
+/-- Tie A: no file is entered by the code of the simplification stage (rattr/results/**): every
+`with enter_file(..)` is in the file analyser's module or in the starred-import expansion. -/
+theorem C15_simplification_enters_no_file :
+    ∀ s ∈ Generated.C15.enterFileSites,
+      s.1 = "rattr/analyser/file.py" ∨ s.1 = "rattr/models/context/_context.py" := by
+  decide
+
+/-- Tie A: the level-function calls of the two loops, in source order, with their explicit
+`badness` argument: the walk passes one (the documented weightless "unable to resolve builtin
+module", a constant 0), `resolve_import` none. A weight that depends on an option is a different
+expression and breaks this theorem (and `C15_weights`). -/
+theorem C15_site_calls_pinned :
+    Generated.C15.siteCalls =
+      (walkCallSites.map fun c => ("rattr/analyser/file.py", "parse_and_analyse_imports", c.1, c.2))
+      ++ (resolveCallSites.map fun c => ("rattr/results/_find_call_target.py", "resolve_import", c.1, c.2)) := by
+  decide
+
+/-- Every diagnostic of `resolve_import` carries the documented weight of its level, however deep the
+chain of re-exports and whatever the options. -/
+theorem C15_resolve_weights (ch : Chain) :
+    ∀ r ∈ (resolve ch).1, r = (Level.info, 0) ∨ r = (Level.error, 5) := by
+  have hg : ∀ (c : Checks) (x : List Report × Outcome), gate c = some x →
+      ∀ r ∈ x.1, r = (Level.info, 0) ∨ r = (Level.error, 5) := by
+    intro c x hx r hr
+    unfold gate at hx
+    (repeat' split at hx) <;> (first | (cases hx; simp_all) | simp_all)
+  have hf : ∀ f : Final, ∀ r ∈ (final f).1, r = (Level.info, 0) ∨ r = (Level.error, 5) := by
+    intro f r hr
+    cases f with
+    | callable b => cases b <;> simp_all [final]
+    | absent b => cases b <;> simp_all [final]
+    | other => simp_all [final]
+  induction ch with
+  | stop c f =>
+    intro r hr
+    unfold resolve at hr
+    cases hgc : gate c with
+    | some x => rw [hgc] at hr; exact hg c x hgc r hr
+    | none => rw [hgc] at hr; exact hf f r hr
+  | via c next ih =>
+    intro r hr
+    unfold resolve at hr
+    cases hgc : gate c with
+    | some x => rw [hgc] at hr; exact hg c x hgc r hr
+    | none => rw [hgc] at hr; exact ih r hr
+
+/-- **However many modules a called name is re-exported through, every diagnostic that
+`resolve_import` raises about it is booked to the simplification bucket**: after any earlier part of
+the run that has left every file it entered, the diagnostics of the chain are placed at `none`, each
+in its own place. -/
+theorem C15_resolve_booked_to_simplification (pre : List Step) (ch : Chain)
+    (hpre : endState none [] pre = (none, [])) :
+    locate none [] (pre ++ steps ch)
+        = locate none [] pre ++ (resolve ch).1.map (fun r => (⟨r.1, r.2, .none⟩ : Event))
+    ∧ inOwnFile none [] (pre ++ steps ch) = inOwnFile none [] pre := by
+  constructor
+  · rw [locate_append, hpre]
+    simp only [steps, reportSteps, locate_reports, placeOf]
+  · rw [inOwnFile_append, hpre]
+    simp only [steps, reportSteps, inOwnFile_reports, Bool.and_true]
+
+/-- A run that consists of such a resolution alone: nothing is added to the target-file bucket or to
+the imports bucket, for every chain and every configuration; the exit status is the contract's. -/
+theorem C15_resolve_buckets (cfg : Cfg) (ch : Chain) :
+    (DiagScope.run cfg (steps ch)).state.target = 0
+    ∧ (DiagScope.run cfg (steps ch)).state.imports = 0
+    ∧ (DiagScope.run cfg (steps ch)).exit
+        = Spec.exit cfg.strict cfg.threshold ((resolve ch).1.map fun r => (⟨r.1, r.2, .none⟩ : Event)) := by
+  have hp : allPass (steps ch) = true := allPass_reports _ _
+  have hf : inOwnFile none [] (steps ch) = true := inOwnFile_reports _ _
+  obtain ⟨h1, h2, _⟩ := C15_scoped cfg (steps ch) hp hf
+  have hb : bySrc (steps ch) = (resolve ch).1.map fun r => (⟨r.1, r.2, .none⟩ : Event) :=
+    bySrc_reports _
+  have hloc : ∀ e ∈ Spec.processed cfg.strict (bySrc (steps ch)), e.loc = Where.none := by
+    intro e he
+    have := mem_processed he
+    rw [hb] at this
+    simp only [List.mem_map] at this
+    obtain ⟨r, _, rfl⟩ := this
+    rfl
+  refine ⟨?_, ?_, ?_⟩
+  · rw [h1]
+    exact bucket_eq_zero _ _ (fun e he => by rw [hloc e he]; decide)
+  · rw [h1]
+    exact bucket_eq_zero _ _ (fun e he => by rw [hloc e he]; decide)
+  · rw [h2, hb]
+
+/-- Any stretch of a run that enters no file books all its diagnostics to one place. -/
+theorem C15_no_enter_one_place (cur : Option FileId) (stack : List (Option FileId)) (steps : List Step)
+    (h : onlyDiags steps = true) : ∀ e ∈ locate cur stack steps, e.loc = placeOf cur :=
+  locate_onlyDiags cur stack steps h
+
+def okChecks : Checks := ⟨true, false, true, false, false, true⟩
+
+/-- The hypothesis "no file is entered" is needed (evaluation, labelled as such): the variant that
+enters the re-exporting module around the recursion books the error of the second hop to the
+imports bucket, and a run that has to exit 1 (badness 5 > threshold 4) exits 0. -/
+theorem C15_resolve_needs_no_enter_file :
+    let ch := Chain.via okChecks (.stop okChecks (.absent false))
+    locate none [] (steps ch) = [⟨.error, 5, .none⟩]
+    ∧ locate none [] (stepsEntering ch [5]) = [⟨.error, 5, .import_⟩]
+    ∧ inOwnFile none [] (stepsEntering ch [5]) = false
+    ∧ (DiagScope.run ⟨false, 4, .all, false, false⟩ (steps ch)).exit = 1
+    ∧ (DiagScope.run ⟨false, 4, .all, false, false⟩ (stepsEntering ch [5])).exit = 0
+    ∧ Spec.exit false 4 (bySrc (stepsEntering ch [5])) = 1 := by
+  decide
+
+/-- non-vacuity: a chain of depth 2 ending in an `@rattr_ignore`d function, one ending at `-f 0`,
+one ending at an excluded module -/
+example : resolve (.via okChecks (.via okChecks (.stop okChecks (.callable false))))
+    = ([(.error, 5)], .unresolved) := by decide
+example : resolve (.via { okChecks with followLocal := false } (.stop okChecks .other))
+    = ([(.info, 0)], .unresolved) := by decide
+example : resolve (.via okChecks (.stop { okChecks with blacklisted := true } (.absent false)))
+    = ([], .unresolved) := by decide
+
+/-- **The import walk reports with the documented weight**: an error of weight 5, or — for a module
+without origin whose loader is the BuiltinImporter, and only then — the documented weightless
+"unable to resolve builtin module". -/
+theorem C15_walk_weights (f : ImportFacts) (lv : Level) (b fam : Nat)
+    (h : walkOne f = .report lv b fam) :
+    lv = .error ∧ ((b = 5 ∧ fam ≠ 2) ∨ (b = 0 ∧ fam = 2 ∧ f.builtinLoader = true ∧ f.hasOrigin = false)) := by
+  unfold walkOne at h
+  (repeat' split at h) <;> (first | (cases h; simp_all) | simp_all)
+
+/-- **No option changes what the walk reports**: whether the module is excluded (`-F`), not followed
+at this `-f` level, or already seen is only looked at after every report. -/
+theorem C15_walk_report_ignores_options (f : ImportFacts) (seen bl pip std : Bool) (lv : Level) (b fam : Nat)
+    (h : walkOne f = .report lv b fam) :
+    walkOne { f with seen := seen, blacklisted := bl, skipPip := pip, skipStdlib := std } = .report lv b fam := by
+  unfold walkOne at h ⊢
+  (repeat' split at h) <;> (first | (cases h; simp_all) | simp_all)
+
+/-- The other way round: excluding a module never turns a report into silence or into a lighter one. -/
+theorem C15_walk_excluded_unlocatable_weighs_five (f : ImportFacts) (h : f.nameKnown = false) :
+    walkOne { f with blacklisted := true } = .report .error 5 0 := by
+  simp [walkOne, h]
+
+example : walkOne ⟨false, false, false, false, false, true, false, false⟩ = .report .error 5 0 := by decide
+example : walkOne ⟨true, true, false, true, false, false, false, true⟩ = .report .error 0 2 := by decide
+example : walkOne ⟨true, true, true, false, false, true, false, false⟩ = .skip := by decide
+
+end Resolve
 
 end Rattr.C15
